@@ -38,6 +38,10 @@ CHECKS = {
                 technique="runtime monitoring over a bounded-exhaustive configuration matrix plus every-cut segmentation: scripted responses, one-shot encoding_rs decode as oracle for the charset the statement selects",
                 text="Every exported charset x labels (canonical + WHATWG aliases, three letter cases) x Content-Type form x default-charset setting x API (text, text_with, text_utf8, text_reader with caller buffers 1..8192) x body kind (valid, random, truncated multi-byte tail, lone surrogates / escape garbage), every single cut offset of 14 multi-byte bodies, and random cases incl. BOM-prefixed bodies (judged for segmentation independence only); the decoded string must equal the one-shot decode with the selected charset and no API may fail.",
                 note="encoding_rs (the library the crate itself uses) is the decoding oracle: what is checked is the choice of charset, totality and chunking independence, not encoding_rs's tables."),
+    "C07": dict(cat="exploration", design="DESIGN.md §3 C07",
+                technique="runtime monitoring of the bytes received by the scripted peer: independent strict request parser (cross-checked with httparse), de-chunking reference decoder and a value model of the builder calls as oracle, over generated builder programs and custom Body programs with write faults",
+                text="Generated programs of builder calls and user-defined streaming bodies (arbitrary sequences of write/write_all/flush/empty write/write_vectored, BufWriter-wrapped or not) are sent; the bytes on the connection must decode as exactly one request whose method, percent-decoded path, query pairs, per-name header lists, credentials and de-framed body equal the inputs, with consistent framing and exactly one Connection: close, under short-write and Interrupted schedules.",
+                note="Trusts the harness's request parser / value model (written from the documentation of the builder methods). Host is judged by C08; multipart part decoding by C15."),
 }
 
 NOT_APPLICABLE = {}
